@@ -95,8 +95,9 @@ func minObs(tier string) map[string]int64 {
 		full = 32
 		m["real_midscan_cancelled"] = 24
 	}
-	m["full_scenarios"] = full
-	m["full_shutdown_sequence_completed"] = full
+	m["full_scenarios"] = full / 2
+	m["full_shutdown_sequence_completed"] = full / 2
+	m["fullfail_scenarios"] = full / 2
 	return m
 }
 
@@ -107,7 +108,15 @@ func run(c *fw.Ctx) {
 	if !c.Quick() && (c.Only == "" || c.Only == bgID) {
 		bg = startRealScan(c)
 	}
-	c.Cases("full", c.NBatch, func(i int, r *fw.Rand) { runFull(c, i, r) })
+	// one full assembly per child process (pkg/server/web is a process singleton): every other
+	// child runs the ordinary lifecycle, the others a shutdown that overtakes start-up
+	c.Cases("full", c.NBatch, func(i int, r *fw.Rand) {
+		if i%2 == 1 {
+			runFullFail(c, i, r)
+		} else {
+			runFull(c, i, r)
+		}
+	})
 	c.Cases("pw", c.N(4800, 64000), func(i int, r *fw.Rand) { runPW(c, i, r) })
 	c.Cases("tlsabort", c.N(48, 600), func(i int, r *fw.Rand) { runTLSAbort(c, i, r) })
 	c.Cases("startfail", c.N(64, 960), func(i int, r *fw.Rand) { runStartFail(c, i, r) })
